@@ -454,7 +454,14 @@ class Interp:
         params = fn.params
         env = {}
         pos = list(params)
-        if fn.cls is not None and pos and pos[0] == 'self':
+        deco = {ast.unparse(d) for d in getattr(fn.node, 'decorator_list', [])}
+        if fn.cls is not None and 'classmethod' in deco and pos:
+            env[pos[0]] = ClassRef(self.self_cls or fn.cls,
+                                   (self.self_cls or fn.cls).module.name + '.' + (self.self_cls or fn.cls).name)
+            pos = pos[1:]
+        elif fn.cls is not None and 'staticmethod' in deco:
+            pass
+        elif fn.cls is not None and pos and pos[0] == 'self':
             env['self'] = self_obj if self_obj is not None else ObjRef('self', fn.cls)
             pos = pos[1:]
         if len(args) > len(pos) and not fn.node.args.vararg:
@@ -500,6 +507,29 @@ class Interp:
                     self.stack.append(fn)
         finally:
             self.stack.pop()
+
+    def bind_positional(self, fn, args, kwargs):
+        """Arguments of a call that is recorded rather than inlined, in the callee's parameter
+        order (keyword arguments placed at their position; trailing defaults left out)."""
+        if not kwargs:
+            return tuple(args)
+        params = fn.params
+        if fn.cls is not None and params and params[0] == 'self' and not (
+                args and isinstance(args[0], ObjRef)):
+            params = params[1:]
+        out = list(args)
+        defaults = fn.defaults()
+        for p in params[len(args):]:
+            if p in kwargs:
+                out.append(kwargs[p])
+            elif p in defaults and any(q in kwargs for q in params[params.index(p) + 1:]):
+                out.append(self.const_expr(defaults[p]))
+            else:
+                break
+        leftover = [k for k in kwargs if k not in params]
+        if leftover:
+            out.extend(('kw:' + k, kwargs[k]) for k in sorted(leftover))
+        return tuple(out)
 
     def const_expr(self, node):
         if isinstance(node, ast.Constant):
@@ -1516,6 +1546,10 @@ class Interp:
             return neg(In(a, b))
         sym = {ast.Lt: '<', ast.LtE: '<=', ast.Gt: '>', ast.GtE: '>=', ast.Eq: '==',
                ast.NotEq: '!='}[type(op)]
+        if isinstance(a, Tup) and isinstance(b, Tup) and a.items and len(a.items) == len(b.items) \
+                and sym in ('<', '<=', '>', '>=') and all(
+                    isinstance(x, Sym) for x in a.items + b.items):
+            return lexicographic(sym, a.items, b.items)
         return norm_cmp(sym, a, b)
 
     def ev_BinOp(self, node, st):
@@ -1616,6 +1650,19 @@ class Interp:
                     yield None, s2.raising('TypeError').note(('none-deref', 'subscript',
                                                               node.lineno))
                     continue
+                if isinstance(i, COND_TYPES) and isinstance(o, Tup) and len(o.items) == 2:
+                    # table[condition]: False -> element 0, True -> element 1
+                    for b_, s3 in self.branch(i, s2):
+                        yield o.items[1 if b_ else 0], s3
+                    continue
+                if isinstance(i, COND_TYPES) and isinstance(o, DictV):
+                    keyed = {k.v: v for k, v in o.items if isinstance(k, Const)}
+                    ints = {int(k.const_value()): v for k, v in o.items
+                            if isinstance(k, Sym) and k.is_const() and k.const_value() in (0, 1)}
+                    if True in keyed and False in keyed or (0 in ints and 1 in ints):
+                        for b_, s3 in self.branch(i, s2):
+                            yield (keyed[b_] if b_ in keyed else ints[int(b_)]), s3
+                        continue
                 yield self.item_of(o, i), s2
 
     def item_of(self, o, i):
@@ -1631,6 +1678,8 @@ class Interp:
                 return Tup(o.items[f(lo):f(hi):f(step)], o.kind)
             ty = type_of(o) if type_of(o) in ('str', 'bytes', 'list', 'tuple') else 'unknown'
             return Opaque('slice', (o, lo, hi, step), ty)
+        if isinstance(i, Const) and isinstance(i.v, bool):
+            i = Sym.const(int(i.v))
         if isinstance(i, Sym) and i.is_const() and i.const_value().denominator == 1:
             k = int(i.const_value())
             if isinstance(o, Tup) and -len(o.items) <= k < len(o.items):
@@ -1746,8 +1795,9 @@ class Interp:
         if isinstance(f, FuncRef):
             fn = f.fn
             if fn in self.stack or not self.hooks.inline(fn, len(self.stack)):
-                yield Opaque('call:' + fn.qualname, tuple(args)), st.effect(
-                    Effect('call', f, tuple(args), node.lineno, self.cur.qualname))
+                bound = self.bind_positional(fn, args, kwargs)
+                yield Opaque('call:' + fn.qualname, bound), st.effect(
+                    Effect('call', f, bound, node.lineno, self.cur.qualname))
                 return
             if fn.cls is not None and fn.params and fn.params[0] == 'self' and args and \
                     isinstance(args[0], ObjRef):
@@ -1779,6 +1829,11 @@ class Interp:
         if isinstance(f, ClassRef):
             yield Opaque('new:' + f.qual, tuple(args), 'obj'), st
             return
+        if isinstance(f, Bound) and isinstance(f.obj, ClassRef):
+            m = f.obj.cls.lookup(f.name)
+            if m is not None and m not in self.stack and self.hooks.inline(m, len(self.stack)):
+                yield from self.call_function(m, args, kwargs, st)
+                return
         # unknown callee: opaque result, recorded as an effect
         yield Opaque('call:' + describe(f), tuple(args)), st.effect(
             Effect('call', f, tuple(args), node.lineno, self.cur.qualname))
@@ -2138,6 +2193,17 @@ def neg(c):
         if c.op in inv and isinstance(c.a, Sym) and isinstance(c.b, Sym):
             return Cmp(inv[c.op], c.a, c.b)
     return NotC(c)
+
+
+def lexicographic(op, xs, ys):
+    """(x0, x1, ...) op (y0, y1, ...) for tuples of numbers, as a condition over the components."""
+    strict = {'<': '<', '<=': '<', '>': '>', '>=': '>'}[op]
+    if len(xs) == 1:
+        return norm_cmp(op, xs[0], ys[0])
+    first = norm_cmp(strict, xs[0], ys[0])
+    eq = norm_cmp('==', xs[0], ys[0])
+    rest = lexicographic(op, xs[1:], ys[1:])
+    return OrC((first, AndC((eq, rest))))
 
 
 def norm_cmp(op, a, b):
